@@ -272,7 +272,7 @@ pub fn random_hop(r: &mut Prng, v6: bool, idx: usize, o: &TopoOpts, is_target: b
         ext,
         nat: None,
         du_code: if is_target { 3 } else { 0 },
-        router_unreach: if !is_target && r.chance(1, 12) { Some(*r.pick(&[0u8, 1, 13])) } else { None },
+        router_unreach: if !is_target && r.chance(1, 12) { Some(*r.pick(&[0u8, 1, 13, 3])) } else { None },
     }
 }
 
